@@ -181,6 +181,7 @@ func C01(x *Ctx) {
 	wR := lastSegRotationWrite(h)
 	if wR < 0 {
 		x.Stats.Add("C01.no_segment", 1)
+		neverStarted(x)
 		return
 	}
 	for track := range c.Tracks {
@@ -721,5 +722,38 @@ func (x *Ctx) c02Init(views map[string]*StreamView) {
 				break
 			}
 		}
+	}
+}
+
+// neverStarted: not a single segment rotation happened. When the written leading track holds two
+// random-access units that are at least SegmentMinDuration apart (audio-only MPEG-TS: and 100 writes
+// apart), followed by one more unit, the first segment was due: the accepted units were swallowed.
+func neverStarted(x *Ctx) {
+	c := x.C
+	lead := c.LeadingTrack()
+	ss := c.Samples(lead)
+	rate := int64(c.Tracks[lead].ClockRate)
+	isVideo := c.Tracks[lead].Kind.IsVideo()
+	first := -1
+	for i, s := range ss {
+		if isVideo && !s.RA {
+			continue
+		}
+		if first < 0 {
+			first = i
+			continue
+		}
+		elapsedNS := ticksToNS(s.DTS-ss[first].DTS, rate)
+		if elapsedNS < int64(c.Cfg.SegMin)+1000 {
+			continue
+		}
+		if !isVideo && c.Cfg.Variant == media.VarTS && s.WriteIdx-ss[first].WriteIdx < 120 {
+			continue
+		}
+		if i+2 >= len(ss) {
+			break
+		}
+		x.fail("start", "never-started/"+c.Tracks[lead].Kind.String(), "every Write succeeded, the leading track (%s) has random-access units %d and %d that are %d ns apart (SegmentMinDuration %v) and further units after them, yet no segment was ever completed", c.Tracks[lead].Kind, first, i, elapsedNS, c.Cfg.SegMin)
+		return
 	}
 }
